@@ -346,6 +346,8 @@ def backtest_spec(
     date_kinds=("bday", "daily", "mixed", "sparse", "intraday"),
     declare=None,
     allow_mult=True,
+    deterministic_children=False,
+    max_sub=2,
 ):
     ds = draw(dates(min_dates, max_dates, kinds=date_kinds))
     n = len(ds)
@@ -359,7 +361,7 @@ def backtest_spec(
         nested = draw(st.integers(0, 3)) == 0
     spec = {"dates": ds, "prices": pr, "rng_seed": draw(st.integers(0, 10**6))}
     if nested:
-        nsub = draw(st.integers(1, 2))
+        nsub = draw(st.integers(1, max_sub))
         kids = []
         subnames = []
         for i in range(nsub):
@@ -368,7 +370,7 @@ def backtest_spec(
             if not sub_clean:
                 sub_t = sub_t + [clean[0]]
                 sub_clean = [clean[0]]
-            algos, info = draw(stack(ds, sub_t, sub_clean, frames, gated="calendar", allow_short=False, allow_risk=False, allow_flow=False, scale_free=scale_free, rot=False, pr=pr))
+            algos, info = draw(stack(ds, sub_t, sub_clean, frames, gated="calendar", allow_short=False, allow_risk=False, allow_flow=False, scale_free=scale_free or deterministic_children, rot=False, pr=pr))
             name = "s%d" % (i + 1)
             subnames.append(name)
             kids.append({"name": name, "kind": "Strategy", "algos": algos, "children": [draw(sec_child(t, allow_mult)) for t in sub_t]})
